@@ -35,6 +35,31 @@ KINDS = {"bool": [".bool"], "int": [".int", ".bool"], "str": [".str"], "float": 
          "list": [".list"], "dict": [".dict"], "Mapping": [".dict"]}
 
 
+import hooksym  # noqa: E402
+
+
+def translate_hook(fn):
+    """symbolic execution first (tools/extract/hooksym.py); the older shape-directed translator as a second opinion when the
+    symbolic one declines"""
+    import os
+
+    def resolve(t):
+        if isinstance(t, type) and attrs.has(t):
+            attrs.resolve_types(t, types.ALL_TYPES_MAP, {})
+    mode = os.environ.get("X_HOOKS_MODE", "sym-first")
+    if mode == "old":
+        return HookTr(fn).translate()
+    try:
+        return hooksym.HookSym(fn, pyty, lean_name, lean_str, resolve).translate()
+    except hooksym.Untranslatable as e1:
+        if mode == "sym":
+            raise Untranslatable(str(e1))
+        try:
+            return HookTr(fn).translate()
+        except Untranslatable as e2:
+            raise Untranslatable(f"{e1} | shape-directed translator: {e2}")
+
+
 class _Subst(ast.NodeTransformer):
     def __init__(self, mapping):
         self.mapping = mapping
@@ -399,7 +424,7 @@ def main():
     i = 0
     for ty, fn in conv._union_struct_registry.items():
         try:
-            prog = HookTr(fn).translate()
+            prog = translate_hook(fn)
         except Untranslatable as e:
             raise Untranslatable(f"{getattr(fn, '__name__', fn)}: {e}")
         out.append(f"def hook{i} : PyTy × HExpr := ({pyty(ty)}, {prog})")
@@ -411,7 +436,7 @@ def main():
         if cl in base:
             continue
         try:
-            prog = HookTr(fn).translate()
+            prog = translate_hook(fn)
         except Untranslatable as e:
             raise Untranslatable(f"{getattr(fn, '__name__', fn)} for {cl}: {e}")
         out.append(f"def hook{i} : PyTy × HExpr := ({pyty(cl)}, {prog})")
